@@ -40,6 +40,7 @@ Op == /\ Consume /\ E.ev = "op"
            [] E.op = "w"  -> B!WriteBytesOk(E.k) \/ B!WriteBytesFail(E.k)
            [] E.op = "r"  -> B!ReserveOk(E.k) \/ B!ReserveFail(E.k)
            [] E.op = "rh" -> B!ReserveHuge(E.k)
+           [] E.op = "wf" -> B!WriteForeign(E.k)
            [] E.op = "wr" -> E.r \in 1..Len(resv) /\ (B!WriteResOk(E.r, E.k) \/ B!WriteResFail(E.r, E.k))
       /\ Observed
 
